@@ -138,8 +138,8 @@ def run(ctx):
         except Raised as e:
             cols_c = None
         ph_c = ctx.func("pyxform.parsing.sheet_headers:process_header", "C11.R2")
-        for canon in ("name", "title", "id_string", "version", "style", "default_language", "public_key", "submission_url", "instance_name", "namespaces", "auto_send", "auto_delete"):
-            for spelled in (canon.upper(), canon.capitalize(), " " + canon.replace("_", " ").title() + " "):
+        for canon in ("name", "title", "id_string", "version", "style", "default_language", "public_key", "submission_url", "instance_name", "namespaces", "auto_send", "auto_delete", "omit_instanceID"):
+            for spelled in (canon.upper(), canon.capitalize(), canon.lower(), " " + canon.replace("_", " ").title() + " "):
                 itc.reset([])
                 try:
                     got_c = itc.call_function(ph_c, [], {"header": spelled, "use_double_colon": False, "header_aliases": sh, "header_columns": cols_c or set()}, None, ph_c.node)
